@@ -116,6 +116,9 @@ def run(replay=None):
                 nfail += 1
                 kind = c["meta"].get("kind")
                 sig = f"impl:updcert:{kind}:be{c['meta']['be']}:{fails[0]}" if kind != "h-crossing" else f"impl:updcert:h-crossing:{fails[0]}"
+                if kind == "h-crossing" and c["meta"].get("mode") == "h-finite-alone":
+                    # the history of known finding F16b: the SOLVED point ignoring the re-posed row is the same defect seen at the result
+                    sig = "impl:h-row:reenable"
                 if nfail <= 6:
                     chk.violation(sig,
                                   "after a history of updates solve() returned PIQP_SOLVED but the point is not a certificate for the "
